@@ -15,29 +15,38 @@ from harness.core import Ctx
 LEAN = core.LEAN
 GEN_FILE = LEAN / "SciVerif" / "Generated" / "C19Tables.lean"
 
-RULE = ("corpus of recon inputs first (corpus/C19/cases.json), then random DIP sources (1-7 parameters over every type keyword "
-        "the live parser accepts, scalars and rectangular arrays of rank 1-3, type min/max and 0.1/1e-5/1e300-like values, strings "
-        "over an alphabet with quotes, $, backslash, blanks) parsed by the real DIP; each environment is exported through all 9 "
-        "back-ends with random options (rename, guard, define/const lists, module, export, units) and query/tag selections; "
-        "non-trivial = selection contains an array or >= 3 parameters; distinct = canonical JSON of (source, back-end, options, selection)")
+RULE = ("corpus of recon inputs and past failures first (corpus/C19/cases.json), then random DIP sources (1-7 parameters; the kind "
+        "class bool/int/uint/float/str is drawn first, then one of the widths the live parser accepts; scalars and rectangular arrays "
+        "of rank 1-3 with independent extents; type min/max and 0.1/1e-5/1e300-like values; strings from a word list, from an alphabet "
+        "with quotes, $, backslash, blanks, and from a pool of hostile fragments such as a\\\"b, $HOME, `ls`, \\x41, trailing "
+        "backslash) parsed by the real DIP; each environment is exported through all 9 back-ends with random options (rename, guard, "
+        "define/const lists up to all scalars, module, export, units) and query/tag selections; non-trivial = selection contains an "
+        "array or >= 3 parameters; distinct = canonical JSON of (source, back-end, options, selection)")
 ASSUMPTIONS = [
-    "the installed gcc, g++, gfortran (-ffree-line-length-none), rustc, bash are the ground truth for what exported text means; "
-    "json (stdlib), yaml.safe_load, tomllib and the DIP parser are trusted readers",
+    "the installed gcc, g++, gfortran (-ffree-line-length-none), rustc, bash (non-interactive: no history expansion of '!') are the "
+    "ground truth for what exported text means; json (stdlib), yaml.safe_load, tomllib and the DIP parser are trusted readers",
     "reader models (Lean) cover only text the exporters emit and are validated against the real tools on every run, not derived "
-    "from a language semantics; texts they do not cover (strings with quote/backslash/$) are judged by the real tool only",
+    "from a language semantics",
     "floats are compared exactly (C, C++, Rust, Bash, data formats) or with relative tolerance 1.5e-7 for 32-bit targets and "
     "1e-15 otherwise; Python's repr/float round trip is assumed; -0.0, inf, nan and float32 nodes holding values outside the "
     "binary32 range are outside the domain",
     "Fortran character values are compared modulo trailing blanks (Fortran's own equality); len= is not compared",
-    "none values, empty strings, non-ASCII strings, empty arrays, parameters in `define` that are arrays, names that are not "
-    "identifiers after the documented mapping (compiled back-ends) and tag selections with more than one selector are outside the domain",
+    "none values, empty strings, non-ASCII or non-printable strings, empty arrays, parameters in `define` that are arrays, names "
+    "that are not identifiers after the documented mapping (compiled back-ends) and tag selections with more than one selector are "
+    "outside the domain",
     "a preprocessor definition has no declared type: only its value is compared (booleans as 1/0)",
     "rust float128 -> f64 is the documented exception; JSON/YAML/TOML carry no declared widths",
+    "the Lean theorems about declaration lines assume a (renamed) name without '[' / blank (C, C++) or ':' (Rust) and a "
+    "rectangular value without empty levels",
 ]
-EXPLANATION = ("theorems: decimal print/read identity for all integers; the bracket machine inverts the nested-list printer for all "
-               "trees; typed initialiser round trip for C/C++ and Rust for every nested value of every kind; type tables "
-               "(regenerated from _parse_dtype and measured with the compilers) give same class/width/signedness except the listed "
-               "lacking types; reshape column-major counterexample; selection characterisation; rename non-injectivity; shaping")
+EXPLANATION = ("theorems: decimal print/read identity for all integers; every string is read back from the literal the repaired "
+               "exporters write (backslash escapes: C/C++/Rust, doubled quote: Fortran, escaped double-quoted word: Bash); the bracket "
+               "machine inverts the nested-list printer for all trees; typed initialiser round trip for C/C++ and Rust for every "
+               "nested value of every kind; whole declaration lines of C/C++ (const/constexpr) and Rust read back as the expected "
+               "symbol for every parameter; Fortran reshape with order=[k..1] undoes the row-major element list for every rectangular "
+               "value of any rank (and the default order does not); type tables (regenerated from _parse_dtype and measured with the "
+               "compilers) give same class/width/signedness except the listed lacking types; selection characterisation; rename "
+               "non-injectivity; shaping")
 
 _TMP = None
 
@@ -495,8 +504,12 @@ def gen_specs(rng, dip_types, n, special=False, arrays=True):
     specs = []
     used = set()
     groups = ["", "", "box.", "sim.", "grp.sub."]
+    by_kind = {}
+    for kb in dip_types:
+        by_kind.setdefault(kb[0], []).append(kb)
     for i in range(n):
-        kind, bits = rng.choice(dip_types)
+        # the kind class first (so that bool and str are as frequent as the many numeric widths), then the width
+        kind, bits = rng.choice(by_kind[rng.choice(sorted(by_kind))])
         while True:
             name = rng.choice(groups) + rng.choice(["a", "b", "cc", "width", "n1", "val", "name", "k9", "flag"]) + \
                 rng.choice(["", "", "x", "2"])
@@ -509,7 +522,7 @@ def gen_specs(rng, dip_types, n, special=False, arrays=True):
         if kind == "bool":
             leaf = lambda: rng.random() < 0.5
         elif kind == "str":
-            sp = special and rng.random() < 0.5
+            sp = rng.random() < (0.6 if special else 0.25)
             leaf = lambda: gen_string(rng, sp)
         elif kind in ("int", "uint"):
             leaf = lambda: gen_int(rng, kind, bits, bool(shape))
@@ -1093,7 +1106,7 @@ def classify(backend, p, reason, obs):
             return "%s:string-with-backslash" % backend
         if backend == "bash" and any(c in s for s in flat for c in "$`!"):
             return "bash:string-with-expansion"
-        if backend == "fortran" and len({len(s) for s in flat}) > 1:
+        if backend == "fortran" and reason == "compile-error" and len({len(s) for s in flat}) > 1:
             return "fortran:str-array-different-lengths"
     if backend == "fortran":
         if p.kind == "uint":
@@ -1199,7 +1212,7 @@ def gen_options(rng, backend, sel):
     if backend in ("c", "cpp"):
         if rng.random() < 0.4:
             o["guard"] = rng.choice(["CONFIG_H", "MY_GUARD", "SETTINGS_HPP_"])
-        k = rng.choice([0, 0, 1, 2])
+        k = rng.choice([0, 0, 1, 2, 9])
         o["define"] = rng.sample(scalars, min(k, len(scalars)))
         if backend == "cpp":
             rest = [p.name for p in sel if p.name not in o["define"]]
@@ -1490,12 +1503,21 @@ def judge_data_case(ctx, c, m, sel, observed):
         shaped[name] = py_value(s["bare"]) if "bare" in s else {"value": py_value(s["value"]), "unit": s["unit"]}
     if not deep_equal(shaped, exp):
         ctx.disagreement("shape:" + b, c.replay(), "model %s environment %s" % (shaped, exp))
+    def toml_x(p):
+        # the third-party `toml` writer mangles a backslash followed by x (toml.encoder._dump_str)
+        return b == "toml" and p.kind == "str" and any("\\x" in x for x in p.flat())
     if observed == "err" or not isinstance(observed, dict):
-        ctx.violation("%s:loader-error" % b, "%s export cannot be loaded" % b, c.replay())
+        bad = [p for p in sel if toml_x(p)]
+        if bad:
+            ctx.violation("toml:string-backslash-x", "toml export of %s = %r cannot be loaded" % (bad[0].name, bad[0].value),
+                          c.replay(param=bad[0].brief()))
+        else:
+            ctx.violation("%s:loader-error" % b, "%s export cannot be loaded" % b, c.replay())
         return
     for p in sel:
         if p.name not in observed or not deep_equal(observed[p.name], exp[p.name]):
-            ctx.violation("%s:%s%s:%s" % (b, p.kind, p.bits or "", "array" if isinstance(p.value, list) else "scalar"),
+            ctx.violation("toml:string-backslash-x" if toml_x(p) else
+                          "%s:%s%s:%s" % (b, p.kind, p.bits or "", "array" if isinstance(p.value, list) else "scalar"),
                           "%s export of %s = %r loads as %r" % (b, p.name, exp[p.name], observed.get(p.name)),
                           c.replay(param=p.brief(), observed=observed.get(p.name)))
     extra = [k for k in observed if k not in exp]
@@ -1519,7 +1541,15 @@ def judge_dip_case(ctx, c, m, sel, text):
     """DIP text export re-read by the real DIP parser (trusted reader)."""
     r = parse_env(text + "\n") if text else (None, [])
     if r is None:
-        back = None
+        # the text as a whole is rejected: re-read line by line, so that only the parameters whose own line is
+        # unreadable are blamed
+        back = {}
+        lines = text.split("\n")
+        if len(lines) == len(sel):
+            for ln in lines:
+                rr = parse_env(ln + "\n")
+                if rr is not None:
+                    back.update({q.name: q for q in rr[1]})
     else:
         back = {p.name: p for p in r[1]}
     for p in sel:
@@ -1544,8 +1574,9 @@ def correspond(ctx: Ctx):
     thorough = ctx.tier == "thorough"
     rng = ctx.rng
     dip_types = probe_dip_types()
-    cases = corpus_cases(dip_types)
-    n_env = 600 if thorough else 30
+    # C19_NO_CORPUS=1 (development only): judge the random generators alone, e.g. against planted changes
+    cases = [] if os.environ.get("C19_NO_CORPUS") else corpus_cases(dip_types)
+    n_env = 600 if thorough else 40
     envs = []
     for k in range(n_env):
         special = rng.random() < 0.25
